@@ -26,16 +26,6 @@ Lemma wd_values o :
   o_headers (with_defaults o) = o_headers o.
 Proof. unfold with_defaults; cbn. repeat split. Qed.
 
-(* a three-cluster character set is left alone *)
-Lemma wd_charset_three o : glen (decode (o_charset o)) = 3 -> o_charset (with_defaults o) = o_charset o.
-Proof.
-  intro H3. unfold with_defaults; cbn [o_charset].
-  assert (Hd : glen (decode default_charset) = 3 -> True) by trivial.
-  destruct (glen (decode (o_charset o)) =? glen (decode default_charset)) eqn:E; [reflexivity|].
-  rewrite H3 in E. exfalso. revert E. generalize (glen (decode default_charset)). intros z E.
-  (* the default set "+|-" has three clusters whatever the classifier: each cluster is non-empty and they concatenate to 3 code points *)
-Abort.
-
 (* idempotence, given that the first application produced a set as long as the default one *)
 Theorem wd_idempotent o :
   glen (decode (o_charset (with_defaults o))) = glen (decode default_charset) ->
